@@ -4,6 +4,7 @@ import (
 	"fmt"
 	"go/token"
 	"go/types"
+	"sort"
 	"strings"
 
 	"gclverify/xt/ssa"
@@ -12,7 +13,7 @@ import (
 func init() {
 	register("C10", &ruleSet{
 		run:    runC10,
-		floors: map[string]int{"O1": 7, "O2": 3, "O3": 6, "O4": 2, "O5": 5},
+		floors: map[string]int{"O1": 7, "O2": 3, "O3": 6, "O4": 2, "O5": 6, "O6": 1},
 		explain: "Decides the wake-up / hand-off protocol discipline, which is exactly where lost wake-ups live: (O1) condition-variable waiters: the failing delegate.Acquire " +
 			"that leads to waiting and the registration on the condition are in one critical section of the condition's lock; (O2) signallers: every Broadcast/Signal is issued " +
 			"with that lock held after the state change; O1 and O2 together are the textbook sufficient discipline, and if either fails there is a schedule that parks the waiter " +
@@ -30,6 +31,8 @@ func runC10(p *Prog, l *Ledger) {
 	l.Rule("O3", "every completion of a wrapping listener reaches the wake-up after the delegate's completion, on every path")
 	l.Rule("O4", "a signalled waiter retries delegate.Acquire before it can block again")
 	l.Rule("O5", "queue hand-off: attempt + bound check + enqueue are one critical section with unblock; delivery cannot be refused; eviction only with a token in hand; give-up drains under the mutex")
+	l.Rule("O6", "a woken caller's retry reaches the gate (decided by the C01/O7 rule on the same tree): the limiter the blocking limiters wrap answers only after asking its strategy, so a retry made after a release sees the freed capacity - a refusal from a remembered \"full\" sends the woken caller back to sleep with capacity free")
+	importObligations(p, l, "C01", "O6", func(o *Obligation) bool { return o.Rule == "O7" })
 	l.NotCovered = []string{"which waiter is next (C11)", "capacity freed by a limit increase wakes nobody (no completion runs; outside the statement)", "fairness", "goroutine leak of the helper goroutine in blockUntilSignaled"}
 	locks := p.Locksets()
 	lisNamed := p.coreNamed("Listener")
@@ -654,6 +657,75 @@ func c10Queue(p *Prog, l *Ledger, locks *LockInfo) {
 			})
 			l.Check(len(ebad) == 0 && ne > 0, "O5", p.Key(f)+"/decides-under-lock", p.FuncPos(f), "every path takes the limiter's exclusive mutex before it reads the backlog or returns", "a release can conclude that nobody waits while a caller is between its failed attempt and its enqueue", ebad...)
 		}
+	}
+	// (f) an eviction function is called twice for one waiter when its give-up coincides with the hand-off (the hand-off
+	// evicts and delivers, then the waiter's give-up path evicts again before it looks for a delivered listener), so all
+	// it does must be idempotent: list.Remove is (it checks the element's owner); a counter step, an append, a send or
+	// a close executed on every path is not - the backlog's bookkeeping drifts, and a "nobody is waiting" or "backlog
+	// full" read from it is wrong for ever after.
+	{
+		var ibad []string
+		ni := 0
+		evs := c12Evictors(p)
+		var fns []*ssa.Function
+		for g := range evs {
+			fns = append(fns, g)
+		}
+		sort.Slice(fns, func(i, j int) bool { return p.Key(fns[i]) < p.Key(fns[j]) })
+		for _, g := range fns {
+			if g.Blocks == nil {
+				continue
+			}
+			ni++
+			var rets []*ssa.BasicBlock
+			for _, b := range g.Blocks {
+				if len(b.Instrs) > 0 && b != g.Recover {
+					if _, ok := b.Instrs[len(b.Instrs)-1].(*ssa.Return); ok {
+						rets = append(rets, b)
+					}
+				}
+			}
+			everyPath := func(b *ssa.BasicBlock) bool {
+				for _, r := range rets {
+					if b != r && !b.Dominates(r) {
+						return false
+					}
+				}
+				return len(rets) > 0
+			}
+			allInstrs(g, func(ins ssa.Instruction) {
+				what := ""
+				switch x := ins.(type) {
+				case *ssa.Send:
+					what = "a channel send"
+				case *ssa.Store:
+					if _, ok := p.DeltaOf(ins); ok {
+						what = "a counter step"
+					} else if call, ok := strip(x.Val, false).(*ssa.Call); ok {
+						if c := p.CallOf(call); c != nil && c.Name == "builtin.append" {
+							what = "an append"
+						}
+					}
+				case *ssa.Call:
+					c := p.CallOf(x)
+					if c == nil {
+						return
+					}
+					switch {
+					case c.Name == "builtin.close":
+						what = "a close"
+					case atomicOpOf(c.Name) == "Add" || (strings.HasPrefix(c.Name, "(*sync/atomic.") && strings.HasSuffix(c.Name, ").Add")):
+						what = "an atomic counter step"
+					case c.Is("(*container/list.List).PushFront", "(*container/list.List).PushBack", "(*sync.WaitGroup).Done", "(*sync.WaitGroup).Add"):
+						what = c.Name
+					}
+				}
+				if what != "" && everyPath(ins.Block()) {
+					ibad = append(ibad, fmt.Sprintf("%s: %s in %s runs on every call of the eviction function; the second eviction of the same waiter repeats it", p.At(ins), what, p.Key(g)))
+				}
+			})
+		}
+		l.Check(len(ibad) == 0 && ni > 0, "O5", "limiter/evict-idempotent", "", fmt.Sprintf("%d eviction function(s) (and what they call): besides locking, only the idempotent list.Remove and plain stores run unconditionally", ni), "evicting a waiter twice (give-up coinciding with the hand-off) corrupts the backlog's bookkeeping: a later release finds nobody to wake, or callers are refused with an empty backlog", ibad...)
 	}
 	_ = token.ADD
 }
